@@ -5,7 +5,8 @@ package main
 // C02.blockTime — getBlockTime (gRPC GetBlockTime and JSON-RPC handleGetBlockTime) over 1..3 loaded
 // epochs with real blocktimeindex.Index objects: for every slot covered by a loaded epoch's
 // block-time index the answer is the value that index records for the slot (JSON: null when the
-// recorded value is 0), whichever other epochs are loaded.
+// recorded value is 0), whichever other epochs are loaded; also when the indexes were read back from
+// their file form (real MarshalBinary / FromBytes), as a started server has them.
 //
 // Cut: parseGetBlockTimeRequest (renamed) returns the requested slot (request parsing: C08).
 
@@ -45,14 +46,23 @@ func VerifC02BlockTime() {
 	home := loaded[verifChoice("home", len(loaded))]
 	off := verifU64("slotOffset")
 	verifAssume(off < W)
+	// the indexes are filled directly with arbitrary int64 values, or (viaFile) with archivable block
+	// times (32-bit unsigned, as the index file stores them) and then read back from their file form
+	viaFile := verifChoice("viaFile", verifParam("fileModes", 2)) == 1
 	var want int64
 	for _, a := range loaded {
 		for k := uint64(0); k < W; k++ {
 			v := verifI64("blocktimeIndexValue")
+			if viaFile {
+				verifAssume(v >= 0 && v <= 0xFFFFFFFF)
+			}
 			a.e.blocktimeindex.Set(a.lo()+k, v)
 			if a == home {
 				want = int64(verifIteU64(off == k, uint64(v), uint64(want)))
 			}
+		}
+		if viaFile {
+			a.reloadBlocktimeIndexFromFile()
 		}
 	}
 	slot := home.lo() + off
